@@ -853,6 +853,11 @@ func streamCont(o *Out, r *rand.Rand, n int, thorough bool) {
 		{"m = make(map[int64]string)\nm[5] = \"v\"\nx = 5\nr = \"stored\"\ntry {\nm[&x] = \"w\"\n} catch e {\nr = \"failed\"\n}\n[r, m[5], len(m)]", "[]iface[string:" + hexOf("failed") + " string:" + hexOf("v") + " int64:1]"},
 		{"m = make(map[int64]string)\nm[5] = \"v\"\nx = 5\nr = \"deleted\"\ntry {\ndelete(m, &x)\n} catch e {\nr = \"failed\"\n}\n[r, len(m)]", "[]iface[string:" + hexOf("failed") + " int64:1]"},
 		{"x = 5\nr = \"made\"\ntry {\nc = []int64{&x}\n} catch e {\nr = \"failed\"\n}\nr", "string:" + hexOf("failed")},
+		// a failing append changes nothing - not the operand and not a list that shares its spare capacity
+		{"a = make([]int64, 1, 4)\nc = a + 5\ntry {\na += [7, \"x\"]\n} catch e {\n}\n[a, c]", "[]iface[[]int64[int64:0] []int64[int64:0 int64:5]]"},
+		{"a = make([]int64, 1, 4)\nc = a + 5\ntry {\nd = a + [7, 8, \"x\"]\n} catch e {\n}\nc", "[]int64[int64:0 int64:5]"},
+		{"a = make([][]int64, 1, 4)\nc = a + [[5]]\ntry {\na += [[7], [\"x\"]]\n} catch e {\n}\nc[1]", "[]int64[int64:5]"},
+		{"a = make([]string, 0, 4)\nc = a + \"keep\"\ntry {\na += [\"w\", nil]\n} catch e {\n}\nc", "[]string[string:" + hexOf("keep") + "]"},
 		{"x = make(S)\ny = x\ny.A = 4\n[x.A, y.A]", "SKIP"},
 		{"x = make(S)\nx.Nope = 1", "ERROR"}, {"x = make(S)\nx.Nope", "ERROR"}, {"x = make(S)\nx.A = 3\nx.A", "int64:3"},
 		{"x = make(S)\nx.C = [1, 2]\nx.C[1]", "int64:2"}, {"x = make(S)\nx.D = {\"a\": 1}\nx.D.a", "int64:1"}, {"x = make(S)\nx.G = [1]\nx.G", "[]iface[int64:1]"},
